@@ -11,6 +11,8 @@ package priority
 //   gInflP[p]    the same per priority
 //   gDivErr      a division returned a non-zero added total different from the dividend
 //   gPset        the configured priorities (keys of Opts.Inputs), gH = Opts.HandlersQuantity
+//   gIn[p][0..gInN[p])  items received from the input of priority p, in order; gOutNP[p] = items of p delivered
+//   gPendSet, gPendP    an item of priority gPendP was received and is not yet delivered
 //   gClosedIn    priorities whose input channel was observed closed
 //   gOutClosed   the output channel was closed
 
@@ -20,6 +22,11 @@ package priority
 //@ ghost var gPset set
 //@ ghost var gH int
 //@ ghost var gClosedIn set
+//@ ghost var gIn map[int]map[int]T
+//@ ghost var gInN map[int]int
+//@ ghost var gOutNP map[int]int
+//@ ghost var gPendSet bool
+//@ ghost var gPendP int
 //@ ghost var gOutClosed bool
 
 // A release is sent once per delivered item and only for delivered items (DESIGN.md §6.5).
@@ -33,11 +40,21 @@ package priority
 //@   requires [C01 C15] capacity-never-exceeded: gInfl < dsc.opts.HandlersQuantity
 //@   requires [C15] no-delivery-after-a-divider-fault: !gDivErr
 //@   requires [C07 C15] nothing-after-close: !gOutClosed
+//@   requires [C02] delivers-the-item-just-received-under-its-priority: gPendSet && v.Priority == gPendP && v.Item == gIn[gPendP][gInN[gPendP] - 1]
+//@   requires [C02] exactly-once-in-order: gOutNP[gPendP] < gInN[gPendP] && (gOutNP[gPendP] + 1 == gInN[gPendP])
 //@   effect gInfl := gInfl + 1
 //@   effect gInflP := store(gInflP, v.Priority, gInflP[v.Priority] + 1)
+//@   effect gOutNP := store(gOutNP, v.Priority, gInN[v.Priority])
+//@   effect gPendSet := false
 
 //@ event recv dsc.inputs[$p].Channel (item, opened)
+//@   requires [C02 C17] reads-only-configured-inputs: in(gPset, p)
+//@   requires [C02] no-received-item-is-dropped: !gPendSet
 //@   effect gClosedIn := ite(opened, gClosedIn, store(gClosedIn, p, true))
+//@   effect gIn := ite(opened, store(gIn, p, store(gIn[p], gInN[p], item)), gIn)
+//@   effect gInN := ite(opened, store(gInN, p, gInN[p] + 1), gInN)
+//@   effect gPendSet := gPendSet || opened
+//@   effect gPendP := ite(opened, p, gPendP)
 
 //@ event recv dsc.interrupter.C ()
 
@@ -47,6 +64,7 @@ package priority
 //@   requires [C07] error-only-after-a-divider-fault: gDivErr
 
 //@ event close dsc.output
+//@   requires [C02] everything-received-was-delivered: gDivErr || (!gPendSet && (forall k :: gOutNP[k] == gInN[k]))
 //@   requires [C07 C15] closes-only-when-nothing-is-in-flight: gInfl == 0
 //@   requires [C07] closes-only-when-all-inputs-are-closed-and-empty: gDivErr || (forall k :: in(gPset, k) ==> in(gClosedIn, k))
 //@   effect gOutClosed := true
@@ -232,67 +250,87 @@ package priority
 //@   ensures [* C07] dsc.inputs[priority].Drained && dsc.inputs[priority].Channel == old(dsc.inputs[priority].Channel)
 
 // DRAINED: a Drained flag is set only for an input that was observed closed.
+// C02: between two items nothing is pending and everything received was delivered.
+//@ pred SEQ2(dsc)
+//@   [C02] (!gPendSet && (forall k :: gOutNP[k] == gInN[k]))
+//@   [C02] forall k :: gOutNP[k] <= gInN[k]
+
 //@ pred DRAINED(dsc)
 //@   [C07] forall k :: (dom(dsc.inputs, k) && dsc.inputs[k].Drained) ==> in(gClosedIn, k)
 
 //@ func (*Discipline).send
+//@   requires [C02] gPendSet && gPendP == priority && item == gIn[priority][gInN[priority] - 1] && gOutNP[priority] < gInN[priority] && (gOutNP[priority] + 1 == gInN[priority])
+//@   requires [C02] forall k :: k != priority ==> gOutNP[k] == gInN[k]
+//@   requires [C02] forall k :: gOutNP[k] <= gInN[k]
+//@   ensures [C02] SEQ2(dsc)
 //@   requires [*] WF(dsc)
 //@   requires [* C01] RINV(dsc)
 //@   requires [* C01] dsc.tactic[priority] >= 1
 //@   requires [C07 C15] !gDivErr
 //@   requires [C07 C15] !gOutClosed
-//@   modifies content(dsc.tactic), content(dsc.actual), gInfl, gInflP, gClock
+//@   modifies content(dsc.tactic), content(dsc.actual), gInfl, gInflP, gClock, gIn, gInN, gOutNP, gPendSet, gPendP
 //@   ensures [*] WF(dsc)
 //@   ensures [* C01] RINV(dsc)
 //@   ensures [* C01] result == 1 && msum(dsc.actual) == old(msum(dsc.actual)) + 1 && msum(dsc.tactic) == old(msum(dsc.tactic)) - 1
 //@   ensures [* C01] dsc.tactic[priority] == old(dsc.tactic[priority]) - 1 && (forall k :: k != priority ==> dsc.tactic[k] == old(dsc.tactic[k]))
 
 //@ func (*Discipline).io
+//@   requires [C02] SEQ2(dsc)
+//@   ensures [C02] SEQ2(dsc)
 //@   requires [*] WF(dsc)
+//@   requires [*] in(gPset, priority)
 //@   requires [* C01] RINV(dsc)
 //@   requires [C07 C15] !gDivErr
 //@   requires [C07 C15] !gOutClosed
 //@   requires [C07] DRAINED(dsc)
-//@   modifies content(dsc.tactic), content(dsc.actual), content(dsc.inputs), gInfl, gInflP, gClock, gClosedIn
+//@   modifies content(dsc.tactic), content(dsc.actual), content(dsc.inputs), gInfl, gInflP, gClock, gClosedIn, gIn, gInN, gOutNP, gPendSet, gPendP
 //@   ensures [*] WF(dsc)
 //@   ensures [* C01] RINV(dsc)
 //@   ensures [* C01] result == msum(dsc.actual) - old(msum(dsc.actual))
 //@   ensures [C07] DRAINED(dsc)
 //@   loop 0
+//@     invariant [C02] SEQ2(dsc)
 //@     invariant [*] WF(dsc)
 //@     invariant [* C01] RINV(dsc)
 //@     invariant [* C01] processed == msum(dsc.actual) - old(msum(dsc.actual))
 //@     invariant [C07] DRAINED(dsc)
 
 //@ func (*Discipline).iou
+//@   requires [C02] SEQ2(dsc)
+//@   ensures [C02] SEQ2(dsc)
 //@   requires [*] WF(dsc)
+//@   requires [*] in(gPset, priority)
 //@   requires [* C01] RINV(dsc)
 //@   requires [C07 C15] !gDivErr
 //@   requires [C07 C15] !gOutClosed
 //@   requires [C07] DRAINED(dsc)
-//@   modifies content(dsc.tactic), content(dsc.actual), content(dsc.inputs), gInfl, gInflP, gClock, gClosedIn
+//@   modifies content(dsc.tactic), content(dsc.actual), content(dsc.inputs), gInfl, gInflP, gClock, gClosedIn, gIn, gInN, gOutNP, gPendSet, gPendP
 //@   ensures [*] WF(dsc)
 //@   ensures [* C01] RINV(dsc)
 //@   ensures [* C01] result == msum(dsc.actual) - old(msum(dsc.actual))
 //@   ensures [C07] DRAINED(dsc)
 //@   loop 0
+//@     invariant [C02] SEQ2(dsc)
 //@     invariant [*] WF(dsc)
 //@     invariant [* C01] RINV(dsc)
 //@     invariant [* C01] processed == msum(dsc.actual) - old(msum(dsc.actual))
 //@     invariant [C07] DRAINED(dsc)
 
 //@ func (*Discipline).prioritize
+//@   requires [C02] SEQ2(dsc)
+//@   ensures [C02] SEQ2(dsc)
 //@   requires [*] WF(dsc)
 //@   requires [* C01] RINV(dsc)
 //@   requires [C07 C15] !gDivErr
 //@   requires [C07 C15] !gOutClosed
 //@   requires [C07] DRAINED(dsc)
-//@   modifies content(dsc.tactic), content(dsc.actual), content(dsc.inputs), gInfl, gInflP, gClock, gClosedIn
+//@   modifies content(dsc.tactic), content(dsc.actual), content(dsc.inputs), gInfl, gInflP, gClock, gClosedIn, gIn, gInN, gOutNP, gPendSet, gPendP
 //@   ensures [*] WF(dsc)
 //@   ensures [* C01] RINV(dsc)
 //@   ensures [* C01] result == msum(dsc.actual) - old(msum(dsc.actual))
 //@   ensures [C07] DRAINED(dsc)
 //@   loop 0
+//@     invariant [C02] SEQ2(dsc)
 //@     invariant [*] WF(dsc)
 //@     invariant [* C01] RINV(dsc)
 //@     invariant [* C01] processed == msum(dsc.actual) - old(msum(dsc.actual))
@@ -337,11 +375,13 @@ package priority
 //@     invariant [*] WF(dsc)
 
 //@ func (*Discipline).base
+//@   requires [C02] SEQ2(dsc)
+//@   ensures [C02] SEQ2(dsc)
 //@   requires [*] WF(dsc)
 //@   requires [C07 C15] !gDivErr
 //@   requires [C07 C15] !gOutClosed
 //@   requires [C07] DRAINED(dsc)
-//@   modifies content(dsc.tactic), content(dsc.actual), content(dsc.inputs), dsc.uncrowded, anyelems(dsc.uncrowded), dsc.useful, gDivErr, gInfl, gInflP, gClock, gClosedIn
+//@   modifies content(dsc.tactic), content(dsc.actual), content(dsc.inputs), dsc.uncrowded, anyelems(dsc.uncrowded), dsc.useful, gDivErr, gInfl, gInflP, gClock, gClosedIn, gIn, gInN, gOutNP, gPendSet, gPendP
 //@   ensures [*] WF(dsc)
 //@   ensures [C07 C15] gDivErr ==> result1 == ErrDividerBad
 //@   ensures [C07 C15] result1 == nil ==> !gDivErr
@@ -349,11 +389,13 @@ package priority
 //@   ensures [C07 C15] result1 != nil ==> gDivErr
 
 //@ func (*Discipline).loop
+//@   requires [C02] SEQ2(dsc)
+//@   ensures [C02] SEQ2(dsc)
 //@   requires [*] WF(dsc)
 //@   requires [C07 C15] !gDivErr
 //@   requires [C07 C15] !gOutClosed
 //@   requires [C07] DRAINED(dsc)
-//@   modifies content(dsc.tactic), content(dsc.actual), content(dsc.inputs), dsc.uncrowded, anyelems(dsc.uncrowded), dsc.useful, gDivErr, gInfl, gInflP, gClock, gClosedIn
+//@   modifies content(dsc.tactic), content(dsc.actual), content(dsc.inputs), dsc.uncrowded, anyelems(dsc.uncrowded), dsc.useful, gDivErr, gInfl, gInflP, gClock, gClosedIn, gIn, gInN, gOutNP, gPendSet, gPendP
 //@   ensures [*] WF(dsc)
 //@   ensures [* C07 C15] gInfl == 0
 //@   ensures [C07 C15] gDivErr ==> result == ErrDividerBad
@@ -361,16 +403,18 @@ package priority
 //@   ensures [C07 C15] result == nil ==> !gDivErr
 //@   ensures [C07 C15] result != nil ==> gDivErr
 //@   loop 0
+//@     invariant [C02] SEQ2(dsc)
 //@     invariant [*] WF(dsc)
 //@     invariant [C07 C15] !gDivErr
 //@     invariant [C07] DRAINED(dsc)
 
 //@ func (*Discipline).main
+//@   requires [C02] SEQ2(dsc)
 //@   requires [*] WF(dsc)
 //@   requires [C07 C15] !gDivErr
 //@   requires [C07 C15] !gOutClosed
 //@   requires [C07] DRAINED(dsc)
-//@   modifies content(dsc.tactic), content(dsc.actual), content(dsc.inputs), dsc.uncrowded, anyelems(dsc.uncrowded), dsc.useful, gDivErr, gInfl, gInflP, gClock, gClosedIn, gOutClosed
+//@   modifies content(dsc.tactic), content(dsc.actual), content(dsc.inputs), dsc.uncrowded, anyelems(dsc.uncrowded), dsc.useful, gDivErr, gInfl, gInflP, gClock, gClosedIn, gOutClosed, gIn, gInN, gOutNP, gPendSet, gPendP
 
 //@ func Opts.isValid
 //@   ensures [*] (result == nil) <==> (opts.Divider != nil && opts.HandlersQuantity != 0 && len(opts.Inputs) != 0)
@@ -400,7 +444,7 @@ package priority
 // The ghost state of a discipline that does not exist yet is empty; gPset / gH name the
 // configuration. The feedback/output capacities are sizes the runtime can allocate.
 //@ func New
-//@   requires [*] ghost-initial-state: gInfl == 0 && (forall k :: gInflP[k] == 0) && !gDivErr && !gOutClosed && (forall k :: !in(gClosedIn, k)) && gPset == domset(opts.Inputs) && gH == opts.HandlersQuantity
+//@   requires [*] ghost-initial-state: !gPendSet && (forall k :: gInN[k] == 0 && gOutNP[k] == 0) && gInfl == 0 && (forall k :: gInflP[k] == 0) && !gDivErr && !gOutClosed && (forall k :: !in(gClosedIn, k)) && gPset == domset(opts.Inputs) && gH == opts.HandlersQuantity
 //@   modifies gDivErr, gPerm, gInv
 //@   ensures [*] result1 == nil ==> result0 != nil
 //@   ensures [C15] creation-fault-is-reported: gDivErr ==> result1 == ErrDividerBad
